@@ -358,6 +358,44 @@ func treeCase(r *vh.Run, rng *vh.RNG, name string) {
 			break
 		}
 	}
+	// a lighter side chain that is stored but never applied (3-4 blocks past its fork point): as a
+	// basis or a target the manager may refuse it (it holds only header-level states for it) or
+	// deliver proofs that are valid at the target - never, silently, anything else
+	if !w.Panicked && w.V2Allowed() {
+		tip := w.TipID()
+		at := tip
+		for i := 0; i < 5 && at != 0; i++ {
+			at = w.Tree.Blocks[at].Parent
+		}
+		if at != 0 && w.Tree.Blocks[at].Height+1 >= w.Net.N.HardforkV2.AllowHeight {
+			side := at
+			var sides []int
+			for i := 0; i < 3+rng.Intn(2); i++ {
+				side = w.GrowRandom(side, 0)
+				sides = append(sides, side)
+			}
+			w.Refresh()
+			if w.TipID() == tip && !w.Applied[side] {
+				for _, sb := range []int{sides[len(sides)-1], sides[len(sides)-2]} {
+					// a set valid on the side chain, moved to the tip and to the fork point
+					if set, _ := setAt(w, rng, sb, 2); len(set) > 0 {
+						for _, to := range []int{tip, at} {
+							if out, ok := w.Update(sb, to, copySet(set), "never-applied-basis"); ok {
+								checkUpdate(w, sb, to, set, out, "never-applied-basis")
+							}
+						}
+					}
+					// a set valid at the tip, moved onto the side chain
+					if set, _ := setAt(w, rng, tip, 2); len(set) > 0 {
+						if out, ok := w.Update(tip, sb, copySet(set), "never-applied-target"); ok {
+							checkUpdate(w, tip, sb, set, out, "never-applied-target")
+						}
+					}
+				}
+				w.Stats["side-chain-cases"]++
+			}
+		}
+	}
 	// the pool-side entry points
 	for k := 0; k < 10 && !w.Panicked; k++ {
 		g.Parents()
@@ -508,12 +546,71 @@ func forkCase(r *vh.Run, rng *vh.RNG, name string) {
 	w.Finish(true, "forked-long-chain")
 }
 
+// floodCase: the v2 pool holds [L (lowest fee rate), P, Q]; V2TransactionSet is asked for a child of P;
+// then v1 transactions fill the pool up to ten blocks through AddPoolTransactions only, so that the
+// re-validation evicts L and the v2 positions shift; V2TransactionSet is asked again.
+func floodCase(r *vh.Run, rng *vh.RNG, name string) {
+	w := poolrig.NewWorld(r, rng, name, chainx.PoolNet(rng, 1, 1000))
+	g := &poolrig.Gen{W: w, Rng: rng}
+	tip := 0
+	for i := 0; i < 16; i++ {
+		tip = w.GrowRandom(tip, 0)
+	}
+	w.Refresh()
+	cs := w.Node.CM.TipState()
+	free := w.FreeCoins()
+	if len(free) < 16 {
+		w.Finish(false, "flood-skipped")
+		return
+	}
+	low := w.SpendV2(cs, free[0:1], 1, types.NewCurrency64(1000), 0) // fee rate ~3 hastings per weight unit
+	p := w.SpendV2(cs, free[1:2], 2, poolrig.Fee(30), 0)
+	q := w.SpendV2(cs, free[2:3], 2, poolrig.Fee(31), 0)
+	if g.AddV2(w.TipID(), []types.V2Transaction{low, p, q}, nil, "fresh", -1, false) != "ok" {
+		w.Finish(false, "flood-skipped")
+		return
+	}
+	child := func(k int) types.V2Transaction {
+		return w.SpendV2(cs, []poolrig.Coin{poolrig.CoinV2(p, k%2)}, 1, poolrig.Fee(40+k), 0)
+	}
+	w.ExpectTSetOK = true
+	w.TSet(w.TipID(), child(0), "before-flood")
+	// the flood: v1 only, no v2 submission, no tip change
+	total := uint64(0)
+	for k := 0; k < 12 && !w.Panicked; k++ {
+		t := w.SpendV1(cs, free[3+k:4+k], 1, types.Siacoins(uint32(2+k)), 1_850_000+rng.Intn(60_000))
+		total += cs.TransactionWeight(t)
+		res := w.AddV1([]types.Transaction{t}, nil)
+		if res != "ok" {
+			break
+		}
+		if total >= 10*cs.MaxBlockWeight() {
+			break
+		}
+	}
+	// the next entry point evicts; it is V2TransactionSet itself, for another child of P
+	w.TSet(w.TipID(), child(1), "after-flood")
+	w.Refresh()
+	w.TSet(w.TipID(), child(2), "after-flood")
+	w.ExpectTSetOK = false
+	evicted := true
+	for _, t := range w.LastV2 {
+		if t.ID() == low.ID() {
+			evicted = false
+		}
+	}
+	w.Finish(evicted, "v1-flood", fmt.Sprintf("flood-evicted-lowest:%v", evicted))
+}
+
 func Run(r *vh.Run) {
-	r.Rule = "tree cases: a real chain.Manager on a fork tree (main chain 4-7, 1-2 forks of depth 1-3 that overtake the tip, pool activity in between); for every once-applied block `from` a set valid there (1-3 groups: single confirmed input / parent+child / child with ephemeral and confirmed input) is moved to about 2/3 of all once-applied blocks `to` (same fork forwards and backwards, other forks, from == to), plus corrupted proofs / leaf indices, unknown and never-applied bases and targets, and 10 parent-closure queries (V2TransactionSet with v1/v2 parents, grandparent orders, stale basis); long cases: one chain of 148 blocks, paths of length 143,144,145,146 forwards and back; fork cases: two branches of 74 and 76 blocks above a common ancestor, sets moved from one branch to the other over paths of total length 140-150 with each leg below 144 (70+74 and 72+72 must succeed, 73+72 and 74+71 must fail), and stale-basis submissions across the fork at total distance 144 / 145; 2 damaged resubmissions of an already pooled transaction at a stale basis per tree through UpdateV2TransactionSet, AddV2PoolTransactions and V2TransactionSet. non-trivial = at least one reorg happened and one pair was moved; distinct = distinct op lists"
+	r.Rule = "tree cases: a real chain.Manager on a fork tree (main chain 4-7, 1-2 forks of depth 1-3 that overtake the tip, pool activity in between); for every once-applied block `from` a set valid there (1-3 groups: single confirmed input / parent+child / child with ephemeral and confirmed input) is moved to about 2/3 of all once-applied blocks `to` (same fork forwards and backwards, other forks, from == to), plus corrupted proofs / leaf indices, unknown and never-applied bases and targets, and 10 parent-closure queries (V2TransactionSet with v1/v2 parents, grandparent orders, stale basis); long cases: one chain of 148 blocks, paths of length 143,144,145,146 forwards and back; fork cases: two branches of 74 and 76 blocks above a common ancestor, sets moved from one branch to the other over paths of total length 140-150 with each leg below 144 (70+74 and 72+72 must succeed, 73+72 and 74+71 must fail), and stale-basis submissions across the fork at total distance 144 / 145; 2 damaged resubmissions of an already pooled transaction at a stale basis per tree through UpdateV2TransactionSet, AddV2PoolTransactions and V2TransactionSet. per tree also a lighter side chain of 3-4 stored-but-never-applied blocks used as basis and as target (error, or proofs valid at the target); flood cases: v2 pool [lowest-rate L, P, Q], V2TransactionSet for a child of P, twelve 1.9M-weight v1 submissions (no v2 submission, no tip change) so that the next entry point evicts L, V2TransactionSet again. non-trivial = at least one reorg happened and one pair was moved; distinct = distinct op lists"
 	rng := vh.NewRNG(r.Seed).Fork()
 	n := r.Pick(120, 3000)
 	for i := 0; i < n; i++ {
 		treeCase(r, rng.Fork(), fmt.Sprintf("t%d", i))
+	}
+	for i := 0; i < r.Pick(1, 3); i++ {
+		floodCase(r, rng.Fork(), fmt.Sprintf("v%d", i))
 	}
 	for i := 0; i < r.Pick(1, 3); i++ {
 		forkCase(r, rng.Fork(), fmt.Sprintf("f%d", i))
